@@ -258,15 +258,25 @@ def input_samples(member: FamilyMember, tier, rng, max_dim=2, n_dims=None, n_str
         n_dims = 5 if tier == "quick" else 30
     if n_structs is None:
         n_structs = 4 if tier == "quick" else 12
+    occs0 = a.expression.variables()
+
+    def consistent(dv):
+        sz = dict(zip(index_names, dv))
+        return not any(len({tuple(sz[i] for i in t.indexes) for t in ts}) > 1 for ts in occs0.values())
+
+    extra = []
     if len(index_names) >= 3:
         # distinct sizes tell permuted dimensions apart
         extra = [tuple(range(1, len(index_names) + 1)), tuple(range(len(index_names), 0, -1)), tuple([2, 3, 1] + [2] * (len(index_names) - 3))]
-        dim_choices = extra + [d for d in dim_choices if d not in extra]
+        extra += [tuple(3 if n == x else 2 for n in index_names) for x in index_names]
+    dim_choices = [d for d in extra + [d for d in dim_choices if d not in extra] if consistent(d)]
     if len(dim_choices) > n_dims:
-        keep = dim_choices[:3] if len(index_names) >= 3 else [dim_choices[-1], dim_choices[0]]
+        biggest = max(dim_choices, key=lambda d: (sum(d), d))
+        keep = [biggest] + [d for d in dim_choices[:3] if d != biggest][:2] + [min(dim_choices, key=sum)]
+        keep = list(dict.fromkeys(keep))
         rest = [d for d in dim_choices if d not in keep]
         rng.shuffle(rest)
-        dim_choices = keep + rest[: n_dims - 2]
+        dim_choices = keep + rest[: max(0, n_dims - len(keep))]
     in_names = [n for n in member.formats if n != a.target.name]
     occ = {n: ts[0] for n, ts in a.expression.variables().items()}
     occs = a.expression.variables()
@@ -281,7 +291,19 @@ def input_samples(member: FamilyMember, tier, rng, max_dim=2, n_dims=None, n_str
             dims = tuple(sizes[i] for i in occ[n].indexes)
             level_dims = [dims[d] for d in fmt.ordering]
             modes = "".join(m.character for m in fmt.modes)
-            structs = list(taco.enumerate_structures(modes, level_dims, limit=n_structs, rng=rng))
+            # small coordinate spaces are enumerated completely, larger ones sampled
+            n_coords = 1
+            for dsz in level_dims:
+                n_coords *= max(dsz, 1)
+            if n_coords <= 4:
+                structs = list(itertools.islice(taco.enumerate_structures(modes, level_dims), 40))
+                if len(structs) > 3 * n_structs:
+                    keep = [structs[0], structs[-1]]
+                    rest = structs[1:-1]
+                    rng.shuffle(rest)
+                    structs = keep + rest[: 3 * n_structs - 2]
+            else:
+                structs = list(taco.enumerate_structures(modes, level_dims, limit=2 * n_structs, rng=rng))
             per_tensor.append([(n, fmt, dims, s) for s in structs])
         # diagonal-ish pairing of structures (not the full product): k-th structure of every tensor,
         # plus a few random combinations
